@@ -161,11 +161,30 @@ def _relations_init_unit():
             calls = []
             include_unary = path.fresh_bool('include_unary')
 
+            from z3 import Function, IntSort, IntVal
+            from pyvc.engine import ClosureV, IterV, LoopSpec
+            from contracts import formats_lines as fl
+            # an opaque iterable: its items are known only as "item t of this iterable" (LenF / ElemF over the python-side number of the
+            # descriptor); iterating it by a loop gives them in order
+            LenF, ElemF = Function('iterable.len', IntSort(), IntSort()), Function('iterable.item', IntSort(), IntSort(), IntSort())
+            descs = []
+
             class Desc(ObjV):
                 def __init__(self, kind, **kw):
                     ObjV.__init__(self, kind, {}, name=kind)
                     self.__dict__.update(kw)
+                    self.number = len(descs)
+                    descs.append(self)
+                    self.fields['__iter__'] = FuncV('iter', lambda p, a, k: IterV(self.item, LenF(IntVal(self.number)), 'iter(%s)' % kind))
+
+                def item(self, t):
+                    o = ObjV('Item', {}, name='%s[%s]' % (self.cls, t))
+                    o.ident = ElemF(IntVal(self.number), t)
+                    o.of = (self, t)
+                    return o
             items, booleans = Desc('items'), Desc('booleans')
+            # the content of the list under construction: what list.__init__ was given, then what was appended (ghost trace)
+            trace = fl.Trace()
 
             def zip_(p, args, kw):
                 return Desc('zip', args=list(args))
@@ -179,11 +198,12 @@ def _relations_init_unit():
             def chain(p, args, kw):
                 return Desc('chain', args=list(args))
             this = ObjV('Relations', {}, name='self')
-            this.fields['sort'] = FuncV('list.sort', lambda p, a, k: calls.append(('sort', a, k)) or NONE)
+            this.fields['sort'] = FuncV('list.sort', lambda p, a, k: calls.append(('sort', a, k, len(trace.segs))) or NONE)
+            this.fields['append'] = FuncV('list.append', lambda p, a, k: trace.one(a[0] if len(a) == 1 and not k else TupleV(list(a))) or NONE)
 
             def super_(p, args, kw):
                 o = ObjV('super', {}, name='super()')
-                o.fields['__init__'] = FuncV('list.__init__', lambda p2, a2, k2: calls.append(('init', a2, k2)) or NONE)
+                o.fields['__init__'] = FuncV('list.__init__', lambda p2, a2, k2: calls.append(('init', a2, k2, len(trace.segs))) or NONE)
                 return o
             Contingency = ObjV('class', {}, name='Contingency')
             g = dict(lib.builtins(), zip=FuncV('zip', zip_), Relation=FuncV('Relation', relation), combinations=FuncV('combinations', combinations),
@@ -212,7 +232,6 @@ def _relations_init_unit():
                 path.oblige('post/list-initialised-once-then-sorted', 'post', BoolVal(names == ['init', 'sort']))
                 if names != ['init', 'sort']:
                     return
-                members = calls[0][1][-1]
                 unary = env_.get('unary')
                 # unary part: one Relation(item, None, column) per (item, column) of zip(items, booleans)
                 ok_u = isinstance(unary, Desc) and unary.cls == 'comprehension' and unary.src.cls == 'zip' and unary.src.args == [items, booleans]
@@ -251,20 +270,44 @@ def _relations_init_unit():
                 okb = (not bconds and bel.cls == 'Relation(...)' and len(bel.args) == 3 and bel.args[0] is l and bel.args[1] is r
                        and getattr(bel.args[2], 'cls', None) == 'zip' and bel.args[2].args == [lb, rb])
                 path.oblige('post/binary-element-pairs-the-two-columns', 'post', BoolVal(okb))
-                # members: unary first then binary when requested, else binary only
-                if path.branch(include_unary):
-                    path.oblige('post/members-with-unary', 'post', BoolVal(getattr(members, 'cls', None) == 'chain' and members.args == [unary, binary]))
+                # members: unary first then binary when requested, else binary only -- whichever way the list is filled: what
+                # list.__init__ is given (chain(a, b) = a then b), then every iterable appended item by item by a loop, in order
+                parts, whole = [], []
+                init_args = [a for a in calls[0][1] if a is not this]
+                if not calls[0][2] and len(init_args) <= 1:
+                    for m in init_args:
+                        parts.extend(m.args if getattr(m, 'cls', None) == 'chain' else [m])
                 else:
-                    path.oblige('post/members-binary-only', 'post', BoolVal(members is binary))
-                # stable sort by the documented rank
+                    parts.append(None)
+                for sg in trace.segs:
+                    t = path.fresh_int('t')
+                    blk = sg[2](t) if sg[0] == 'many' else None
+                    src = getattr(blk[0], 'of', None) if blk and len(blk) == 1 else None
+                    if src is None or src[1] is not t:
+                        parts.append(None)       # a single append, or a block that is not "item t of one iterable"
+                        continue
+                    parts.append(src[0])
+                    whole.append(sg[1] == LenF(IntVal(src[0].number)))
+                filled = BoolVal(calls[0][3] == 0 and calls[1][3] == len(trace.segs))       # nothing appended before __init__ / after sort
+                if path.branch(include_unary):
+                    path.oblige('post/members-with-unary', 'post',
+                                And(filled, BoolVal(len(parts) == 2 and parts[0] is unary and parts[1] is binary), *whole))
+                else:
+                    path.oblige('post/members-binary-only', 'post', And(filled, BoolVal(len(parts) == 1 and parts[0] is binary), *whole))
+                # stable sort by the documented rank (the key function: a lambda or a nested def, applied to a symbolic relation)
                 sk = calls[1][2].get('key')
-                okk = set(calls[1][2]) == {'key'} and isinstance(sk, FuncV)
+                okk = set(calls[1][2]) == {'key'} and isinstance(sk, (FuncV, ClosureV))
                 if okk:
                     rr = ObjV('Rel', {'order': IntV(Int('rank'))}, name='r')
-                    v = sk.fn(path, [rr], {})
+                    v = path.interp.call(sk, [rr], {})
                     okk = isinstance(v, IntV) and v is rr.fields['order']
                 path.oblige('post/sorted-by-rank', 'post', BoolVal(okk))
-            return env, {'globals': g, 'closed_form': closed}, finish
+            loops = {'globals': g, 'closed_form': closed}
+            for n_ in [0, 1, 2, 3] + ['Accumulator#%d' % a_ for a_ in range(4)]:
+                # a loop that appends the items of an iterable one by one: iteration k appends exactly item k of the iterable it walks
+                # (`for m in it: self.append(m)` has the shape of an accumulator loop: keyed by its accumulator ordinal)
+                loops[n_] = fl.emit_loop(trace, lambda k, _n=n_: [path.ghost['iter#%s' % _n].at(k)])
+            return env, loops, finish
         return bits.axioms(), harness
     return make
 
